@@ -723,7 +723,7 @@ pub fn at_end(w: &mut World) {
             }
             for v in w.node(k).produced.clone() {
                 let i = &w.vals[v as usize];
-                if i.returned == 0 && i.dropped != 1 {
+                if i.returned == 0 && i.dropped != 1 && !i.untracked {
                     let d = i.dropped;
                     w.flag("c05.discard", || format!("value v{v} produced by sibling n{k} before the failure was dropped {d} times (expected: discarded exactly once, never returned)"));
                 }
